@@ -29,6 +29,7 @@ import Proofs.FitTotal
 import Proofs.FitDelete
 import Proofs.FitInline
 import Proofs.FitInv
+import Proofs.FitInStep
 import Proofs.Placement
 import Props.C01
 namespace PM.C11
@@ -1165,6 +1166,76 @@ theorem fit_emits_wf_of_inStep (S : Schema) (hdet : detB S = true) (hfill : S.fi
   obtain ⟨_, h1, h2, h3⟩ := hr F T G1 G2 sl' ins b hst
   subst hst
   exact aroundShape_of F T G1 G2 sl' ins b hw h1 h2 h3
+
+/-- **`fit_emits_wf`** — every step `replace_step` emits for a well-formed slice on a valid document
+    is well-formed (`StepWF`: both halves of `Slice.wf`, `insert ≤ slice.size`), and a replace-around
+    answer has `aroundShape`.  Hypotheses, all decidable and evaluated by the driver on every generated
+    request (op `fitEmit`):
+    * on the schema: `detB`, `fillersOKB`, `wrapOKB` (guard (a) above), `labelsOKB` (edges are labelled
+      with node types of the schema);
+    * on the document: `Node.check` and `nodeAttrsOK`;
+    * on the run: `unplacedWfRun` — the *unplaced* slice is `Slice.wf` in the state `Fitter.__init__`
+      builds and after every iteration.  This is what excludes (b) and (c): `open_more` raising
+      `open_end` past a leaf, and `place_nodes` keeping an `open_start` that no longer points into a
+      first-child chain (both also upstream; on the bundled-family requests the hypothesis has always
+      been true, on random schemas in all but a few per thousand runs — counters of op `fitEmit`).
+    Under it `place_nodes` keeps `placed` and the frontier in step (`placeNodes_inStep`,
+    Proofs/FitInStep.lean): a positive `open_end_count` forces the placed fragment to lie at the very
+    end of a single chain (`pure_of_size`), the count is `open_end - slice_depth ≤ spineR fragment`,
+    `close_node_start` keeps the last-child chain of the last node, and the one case in which the
+    code pushes the open end of a node it did not add has size 0.
+    STILL OPEN: replacing `unplacedWfRun` by static guards on the request slice (a deep version of
+    `termGuard` along the end spine for `open_end`; for `open_start` no static guard is known —
+    the staleness depends on where the frontier stops accepting). -/
+theorem fit_emits_wf (S : Schema) (hdet : detB S = true) (hfill : S.fillersOKB = true) (hwrap : S.wrapOKB = true)
+    (hlab : S.labelsOKB = true) (doc : Node) (f t : Nat) (sl : Slice) (hv : C01.Valid S doc)
+    (hattrs : S.nodeAttrsOK doc = true) (hwf : sl.wf = true) (hft : f ≤ t)
+    (hrun : unplacedWfRun S doc f t sl = true) (st : Step) (h : replaceStep S doc f t sl = .ok (some st)) :
+    StepWF st = true ∧
+    (∀ F T G1 G2 sl' ins b, st = .replaceAround F T G1 G2 sl' ins b → aroundShape F T G1 G2 sl' ins = true) := by
+  have hw := replaceStep_wf_run S (detS_of_detB S hdet) (fillersOK_of_B S hfill) (wrapOK_of_B S hwrap)
+    (labelsOK_of_B S hlab) doc f t sl hv hattrs hwf hrun st h
+  refine ⟨hw, ?_⟩
+  intro F T G1 G2 sl' ins b hst
+  have hos : sl.openStart ≤ spineL sl.content := by
+    simp only [Slice.wf, Bool.and_eq_true, decide_eq_true_eq] at hwf
+    exact hwf.1
+  obtain ⟨_, hr⟩ := fit_emits_wf_partial S doc f t sl st hft hos h
+  obtain ⟨_, h1, h2, h3⟩ := hr F T G1 G2 sl' ins b hst
+  subst hst
+  exact aroundShape_of F T G1 G2 sl' ins b hw h1 h2 h3
+
+/-- the in-step invariant itself: kept by every iteration whose unplaced slice is well-formed -/
+theorem inStep_invariant (S : Schema) (hdet : detB S = true) (hfill : S.fillersOKB = true) (hwrap : S.wrapOKB = true)
+    (hlab : S.labelsOKB = true) (st st' : FitState) (hin : InStep st) (hwf : st.unplaced.wf = true)
+    (hsz : (st.unplaced.size == 0) = false) (h : fitStep S st = .ok st') :
+    InStep st' ∧ st'.inStepB = true := by
+  have := fitStep_inStep S (detS_of_detB S hdet) (fillersOK_of_B S hfill) (wrapOK_of_B S hwrap)
+    (labelsOK_of_B S hlab) st hin hwf hsz st' h
+  exact ⟨this, this.toB⟩
+
+/-- the hypotheses of `fit_emits_wf` are satisfiable on a run that opens the slice: pasting the
+    closed paragraph `p("x")` into the paragraph of `doc(p("ab"))` at position 2 — the paragraph does
+    not fit there, so the paragraph around the position is closed and re-opened around it: the emitted
+    slice `<p(), p("x"), p()>(1,1)` is open on both sides -/
+example :
+    let nt (name : String) (isText inl : Bool) (dfa : Array DfaState) : NodeType :=
+      { name := name, isText := isText, isInline := isText, isLeaf := isText, isAtom := isText,
+        inlineContent := inl, isolating := false, defining := false, code := false,
+        dfa := dfa, markSet := none, attrs := [] }
+    let S : Schema := { nodes := #[nt "doc" false false #[⟨false, [(1, 1)]⟩, ⟨true, [(1, 1)]⟩],
+                                   nt "paragraph" false true #[⟨true, [(2, 0)]⟩],
+                                   nt "text" true false #[⟨true, []⟩]],
+                        marks := #[], top := 0, textTy := 2 }
+    let doc := Node.elem 0 [] [] [.elem 1 [] [] [.text [97, 98] []]]
+    let sl : Slice := ⟨[.elem 1 [] [] [.text [120] []]], 0, 0⟩
+    detB S = true ∧ S.fillersOKB = true ∧ S.wrapOKB = true ∧ S.labelsOKB = true ∧ S.checkNode doc = true ∧
+    S.nodeAttrsOK doc = true ∧ sl.wf = true ∧ unplacedWfRun S doc 2 2 sl = true ∧
+    fitsTriviallyO S doc 2 2 sl = some false ∧
+    (match replaceStep S doc 2 2 sl with
+     | .ok (some (.replace 2 2 sl' _)) =>
+       sl' == ⟨[.elem 1 [] [] [], .elem 1 [] [] [.text [120] []], .elem 1 [] [] []], 1, 1⟩
+     | _ => false) = true := by decide +kernel
 
 /-- **`delete_emits_wf`** — every step `replace_step` emits for a deletion on a valid document is
     well-formed (`StepWF`: `Slice.wf`, `insert ≤ slice.size`), and a replace-around answer has
